@@ -542,6 +542,11 @@ class FunctionAnalysis:
             return self.global_av(e.id)
         if isinstance(e, ast.Attribute):
             base = self.eval(e.value, env)
+            if isinstance(e.value, ast.Name) and e.value.id == 'self' and self.fi.cls is not None:
+                meth = self.eff.find_method(self.fi.cls, e.attr)
+                if meth is not None and any(d.split('(')[0].split('.')[-1] == 'cached_property' for d in meth.decorators()):
+                    # reading a cached_property stores its value on the instance: later reads do not see changes of the fields it was computed from
+                    self.mutate(base, e, f'cached_property .{e.attr} stores its value on the instance')
             if base.imm:
                 return IMM
             if base.fields is not None:
